@@ -240,9 +240,12 @@ impl<'a, TokenUsages: Fn(StatementIdx, CostTokenType) -> usize>
     }
 
     /// Calculates the effective ap change for a statement, and the variables for ap alignment.
-    fn calc_effective_ap_change_and_variables_per_statement(&mut self, idx: StatementIdx) {
+    fn calc_effective_ap_change_and_variables_per_statement(
+        &mut self,
+        idx: StatementIdx,
+    ) -> Result<(), ApChangeError> {
         let Some(base_info) = self.infos[idx.0].tracking_info.clone() else {
-            return;
+            return Ok(());
         };
         if matches!(self.program.get_statement(idx), Some(Statement::Return(_))) {
             if let ApTrackingBase::FunctionStart(id) = base_info.base
@@ -250,7 +253,7 @@ impl<'a, TokenUsages: Fn(StatementIdx, CostTokenType) -> usize>
             {
                 self.infos[idx.0].effective_ap_change_from_base = Some(*func_change);
             }
-            return;
+            return Ok(());
         }
         let mut source_ap_change = None;
         let mut paths_ap_change = vec![];
@@ -267,7 +270,10 @@ impl<'a, TokenUsages: Fn(StatementIdx, CostTokenType) -> usize>
             let Some(target_ap_change) = self.infos[target.0].effective_ap_change_from_base else {
                 continue;
             };
-            let calc_ap_change = target_ap_change - change;
+            // The branch cannot change ap by more than what is left until the target's base.
+            let calc_ap_change = target_ap_change
+                .checked_sub(change)
+                .ok_or(ApChangeError::SolvingApChangeEquationFailed)?;
             paths_ap_change.push((target, calc_ap_change));
             if let Some(source_ap_change) = &mut source_ap_change {
                 *source_ap_change = (*source_ap_change).min(calc_ap_change);
@@ -283,6 +289,7 @@ impl<'a, TokenUsages: Fn(StatementIdx, CostTokenType) -> usize>
                 }
             }
         }
+        Ok(())
     }
 
     /// Gets the actual ap-change of a branch.
@@ -353,7 +360,7 @@ pub fn calc_ap_changes<TokenUsages: Fn(StatementIdx, CostTokenType) -> usize>(
         helper.calc_tracking_info_for_statement(*idx);
     }
     for idx in ap_tracked_reverse_topological_ordering {
-        helper.calc_effective_ap_change_and_variables_per_statement(idx);
+        helper.calc_effective_ap_change_and_variables_per_statement(idx)?;
     }
     Ok(ApChangeInfo {
         variable_values: helper.variable_values,
